@@ -55,6 +55,8 @@ def run(R):
         r6(R, m)
     if R.want("C09.R8"):
         r8(R, m)
+    if R.want("C09.R9"):
+        r9(R)
     if R.want("C09.R7"):
         # the refinement's g-vectors come from two routes that must be one function: the C kernel used by assignlabels and the
         # Python chain used by compute_gv (omega passed already multiplied by omegasign, grain origin from t_x,t_y,t_z).
@@ -537,13 +539,41 @@ def r6(R, m):
                      "division guarded; refineubis stores refine(g.ubi) into the same grain")
     fn = m.func("%s.refine" % CLS)
     p = fn.args.args[1].arg
-    cp = [a for a in fn.body if isinstance(a, ast.Assign) and isinstance(a.targets[0], ast.Name)
-          and nows(src(a.value)) in ("%s.copy()" % p, p, "numpy.array(%s)" % p, "%s.copy(order='C')" % p)]
-    R.shape(len(cp) == 1, "C09.R6", REL, "%s.refine" % CLS, "mat = ubi.copy()")
+    # the working matrix: an assignment  <name> = f(<argument>)  in the body.  f copies (x.copy(), np.array(x), np.copy(x), x.astype(t),
+    # copy.copy / deepcopy) or may return its argument itself (x, np.asarray / ascontiguousarray / asanyarray / require(x), x.view(),
+    # x.reshape(..), x.ravel(), np.array(x, copy=False), x.astype(t, copy=False)): score_and_refine then overwrites the caller's matrix
+
+    def copies(v):
+        d = dotted(v.func) if isinstance(v, ast.Call) else None
+        kw = {k.arg: k.value for k in v.keywords} if isinstance(v, ast.Call) else {}
+        nocopy = "copy" in kw and isinstance(kw["copy"], ast.Constant) and kw["copy"].value is False
+        if isinstance(v, ast.Name) and v.id == p:
+            return False
+        if isinstance(v, ast.Call) and isinstance(v.func, ast.Attribute) and src(v.func.value) == p:
+            if v.func.attr == "copy":
+                return True
+            if v.func.attr == "astype":
+                return not nocopy
+            if v.func.attr in ("view", "reshape", "ravel", "squeeze", "transpose"):
+                return False
+        if d is not None and v.args and src(v.args[0]) == p:
+            last = d.split(".")[-1]
+            if last in ("array",):
+                return not nocopy
+            if last in ("copy", "deepcopy"):
+                return True
+            if last in ("asarray", "ascontiguousarray", "asanyarray", "require", "asfortranarray", "atleast_2d"):
+                return False
+        return None
+    cands = [(a, copies(a.value)) for a in fn.body if isinstance(a, ast.Assign) and isinstance(a.targets[0], ast.Name)
+             and any(isinstance(x, ast.Name) and x.id == p for x in ast.walk(a.value))]
+    cands = [(a, c_) for a, c_ in cands if c_ is not None]
+    R.shape(len(cands) == 1, "C09.R6", REL, "%s.refine" % CLS, "the working copy  mat = <copy of the argument>")
+    cp = [cands[0][0]]
     mat = cp[0].targets[0].id
-    R.check(nows(src(cp[0].value)) != p, "C09.R6", REL, cp[0].lineno, "%s.refine" % CLS, src(cp[0]),
-            "score_and_refine overwrites its matrix argument: without the copy the caller's matrix (ubisread[grainname], the fixed "
-            "start point of every gof trial) is modified in place")
+    R.check(cands[0][1] is True, "C09.R6", REL, cp[0].lineno, "%s.refine" % CLS, src(cp[0]),
+            "score_and_refine overwrites its matrix argument and %s does not copy a C-contiguous float64 array: the caller's matrix "
+            "(ubisread[grainname], the fixed start point of every gof trial; grain.ubi in a score-only pass) is refined in place" % src(cp[0].value)[:60])
     calls = [c for c in ast.walk(fn) if isinstance(c, ast.Call) and (dotted(c.func) or "").endswith("score_and_refine")]
     R.shape(len(calls) >= 1, "C09.R6", REL, "%s.refine" % CLS, "score_and_refine calls")
     for c in calls:
@@ -640,3 +670,33 @@ def r8(R, m):
         R.check(fresh, "C09.R8", "ImageD11/grain.py", a.lineno, "grain.__init__", "self.translation = %s (a fresh array)" % src(v)[:50],
                 "the grain keeps a reference to the caller's array: grains generated from one start vector share it, and the in-place "
                 "stores of refinepositions (refinegrains.py:%d) move all of them" % inplace[0].lineno)
+
+
+# --------------------------------------------------------------------------------------------------
+def r9(R):
+    """scripts/makemap.py: savegrains() fills the per-peak result columns (h, k, l, hr, kr, lr, gx.., omegacalc_per_grain) grain by grain;
+    assignlabels() re-creates them as zeros (and leaves the g-vectors of the last grain) and only savegrains() fills them again.  The
+    peak file '<flt>.new' therefore has to be written after savegrains() with no assignlabels() in between."""
+    MK = "scripts/makemap.py"
+    R.rule("C09.R9", "scripts/makemap.py: '<fltfile>.new' is written after savegrains() and before any later assignlabels() (which resets "
+                     "the per-peak hkl / g-vector columns that only savegrains fills)")
+    import networkx as nx
+    m = pyfacts.module(R, MK)
+    fn = m.func("makemap")
+    cfg = pyfacts.PyCFG(fn)
+
+    def calls(attr):
+        return [c for c in ast.walk(fn) if isinstance(c, ast.Call) and isinstance(c.func, ast.Attribute) and c.func.attr == attr]
+    sg = calls("savegrains")
+    wf = [c for c in calls("writefile") if c.args and any(isinstance(x, ast.Constant) and x.value == ".new" for x in ast.walk(pyfacts.resolved(fn, c.args[0], 2)))]
+    al = calls("assignlabels")
+    R.shape(len(sg) == 1 and len(wf) == 1, "C09.R9", MK, "makemap", "one savegrains() call and one scandata[...].writefile(<flt> + '.new') call")
+    nsg, nwf = cfg.node_of(pyfacts.containing_stmt(sg[0])), cfg.node_of(pyfacts.containing_stmt(wf[0]))
+    R.check(cfg.dominates(nsg, nwf), "C09.R9", MK, wf[0].lineno, "makemap", "savegrains() dominates the writing of <flt>.new",
+            "the peak file is written on a path where the per-peak columns have not been filled by savegrains()")
+    between = nx.descendants(cfg.g, nsg.id) & nx.ancestors(cfg.g, nwf.id)
+    bad = [c for c in al if cfg.node_of(pyfacts.containing_stmt(c)) is not None and cfg.node_of(pyfacts.containing_stmt(c)).id in between]
+    R.check(not bad, "C09.R9", MK, wf[0].lineno, "makemap", "no assignlabels() between savegrains() and the writing of <flt>.new",
+            "assignlabels() (line %s) runs between savegrains() and the writing of '<flt>.new': it re-creates h, k, l, hr, kr, lr and "
+            "omegacalc_per_grain as zeros and overwrites gx, gy, gz with the last grain's origin, so the saved peak file carries hkl = 0 "
+            "for every peak (only when the unindexed-peaks option is used)" % (bad[0].lineno if bad else ""))
